@@ -4,19 +4,18 @@ namespace Httpcore.Drv
 open Httpcore Httpcore.H2
 
 def showSlots (s : Slots) : String :=
-  s!"sem={s.sem} held={s.held} max={s.maxS} want={s.want} blocked={if s.readerBlocked then 1 else 0}"
+  s!"sem={s.sem} held={s.held} max={s.maxS} debt={s.debt}"
 
-/-- `h2slots <op>,<op>,...` with op = `s<n>` (settings n) | `o` (open) | `c` (close)
-    -> the slot state after each op, `;`-separated; `o!` marks an open that has to wait -/
+/-- `h2slots <op>,<op>,...` with op = `s<n>` (settings n) | `o` (a request's acquire loop) | `c` (close)
+    -> the slot state after each op, `;`-separated; `wait` marks a request that has to wait -/
 def h2slots (args : List String) : String :=
   match args with
   | [ops] =>
     let step (acc : Slots × List String) (op : String) : Slots × List String :=
       let s := acc.1
       if op = "o" then
-        match s.openStream with
-        | some s' => (s', acc.2 ++ [showSlots s'])
-        | none => (s, acc.2 ++ ["wait " ++ showSlots s])
+        let r := s.openStream
+        (r.1, acc.2 ++ [(if r.2 then "" else "wait ") ++ showSlots r.1])
       else if op = "c" then let s' := s.closeStream; (s', acc.2 ++ [showSlots s'])
       else match (op.drop 1).toString.toNat? with
         | some n => let s' := s.settings n; (s', acc.2 ++ [showSlots s'])
